@@ -161,18 +161,19 @@ Bucket_grow(Bucket *self, int newsize, int noval)
             goto Overflow;
         UNLESS (keys = BTree_Realloc(self->keys, sizeof(KEY_TYPE) * newsize))
             return -1;
+        /* realloc() may have moved the block and freed the old one:  keep the
+         * new address whatever happens next.  If the values can't be grown,
+         * the keys block is merely larger than self->size says.
+         */
+        self->keys = keys;
 
         UNLESS (noval)
         {
             values = BTree_Realloc(self->values, sizeof(VALUE_TYPE) * newsize);
             if (values == NULL)
-            {
-                free(keys);
                 return -1;
-            }
             self->values = values;
         }
-        self->keys = keys;
     }
     else
     {
@@ -1319,10 +1320,12 @@ _bucket_setstate(Bucket *self, PyObject *state)
         keys = BTree_Realloc(self->keys, sizeof(KEY_TYPE)*len);
         if (keys == NULL)
             return -1;
+        /* the old block is gone: keep the new address even if the values
+         * can't be grown */
+        self->keys = keys;
         values = BTree_Realloc(self->values, sizeof(VALUE_TYPE)*len);
         if (values == NULL)
             return -1;
-        self->keys = keys;
         self->values = values;
         self->size = len;
     }
